@@ -6,6 +6,7 @@
   harness (cmd/corr/c18.go).  REQ's own timers are also part of the Req machine (Props/C03, C04).
 -/
 import Model.Wait
+import Model.Proto.ReqWake
 namespace Props.C18
 open Model Model.Wait
 
@@ -212,5 +213,24 @@ example : run { rearm := false, hasBE := false, hasFNP := false } { expire := 10
     { ready := false, peers := true } [(30, .resize), (60, .ready)] = some (.ok, 60) := by decide
 example : run { rearm := false, hasBE := true, hasFNP := true } { expire := 0, bestEffort := false, failNoPeers := false }
     { ready := false, peers := true } [(30, .resize), (60, .nopeers)] = none := by decide
+
+/-- REQ is the one protocol whose blocked calls share state (the context's request).  Whatever cancels that request —
+    a receive deadline, a send deadline, a lost connection with retries disabled, the last peer leaving, Close — no Send
+    on that context stays parked once the waiters have re-evaluated their conditions: a Send whose timer `cancel` has
+    stopped and whose queue entry it has removed gives up (D17: it used to sleep on, with nothing left to wake it) -/
+theorem req_cancel_never_leaves_a_send_asleep (s : Proto.Req.State) (c : Nat) (h : (Proto.Req.getCtx s c).isSome = true) :
+    ∀ q ∈ (Proto.Req.wake (Proto.Req.cancel s c) c).1.parkedSend, q.ctx ≠ c :=
+  Proto.Req.cancel_wakes_every_send s c h
+
+/-- … in particular when a Recv deadline fires while the request it waits for is still current -/
+theorem req_recv_deadline_wakes_pending_send (s : Proto.Req.State) (evs : List (Nat × Proto.Ev)) (p : Proto.Req.Parked) (x : Proto.Req.Ctx)
+    (hx : Proto.Req.getCtx s p.ctx = some x) (hstill : (x.reqID == p.rid) = true) :
+    ∀ q ∈ (Proto.Req.deadlineFired (s, evs) true p).1.parkedSend, q.ctx ≠ p.ctx := by
+  unfold Proto.Req.deadlineFired
+  simp only [hx, hstill, if_true]
+  apply Proto.Req.cancel_wakes_every_send
+  show (Proto.Req.getCtx { s with parkedRecv := _ } p.ctx).isSome = true
+  have : Proto.Req.getCtx { s with parkedRecv := s.parkedRecv.map (fun q => if q.call == p.call then { q with expired := true, deadline := none } else q) } p.ctx = Proto.Req.getCtx s p.ctx := rfl
+  rw [this, hx]; rfl
 
 end Props.C18
